@@ -276,9 +276,12 @@ Step(w, objs, al, ev) ==
             LET k == PyPos(p[1], n) IN
             IF k \in 1..n THEN InPlace(objs, al, ev.recv, [o EXCEPT !.rows[k] = LitRow(o.cols)], NoRet)
             ELSE Fail(objs, al, "IndexError")
-      [] m = "setitem_col" ->       \* self.data[c] = list | scalar
-            InPlace(objs, al, ev.recv,
-                    SetCol(o, cs[1], IF p[1] = 1 THEN [k \in 1..n |-> LitCell(cs[1])] ELSE LitCol(cs[1], n)), NoRet)
+      [] m = "setitem_col" ->       \* self.data[c] = list | scalar;  an empty list makes the column float64
+            LET o2 == SetCol(o, cs[1], IF p[1] = 1 THEN [k \in 1..n |-> LitCell(cs[1])] ELSE LitCol(cs[1], n))
+                req == ReqCols(o.cls)
+            IN InPlace(objs, al, ev.recv,
+                       IF n = 0 /\ p[1] = 0 /\ HasCol(req, cs[1])
+                       THEN [o2 EXCEPT !.dt = [q \in Idx(req) |-> IF req[q] = cs[1] THEN "float64" ELSE o.dt[q]]] ELSE o2, NoRet)
       [] m = "setitem_cell" ->      \* self.data.loc[label, c] = v
             IF \E k \in 1..n : o.index[k] = p[1]
             THEN LET k == CHOOSE k \in 1..n : o.index[k] = p[1] IN
@@ -290,6 +293,8 @@ Step(w, objs, al, ev) ==
                                                        ELSE o.rows[k]]], NoRet)
       [] m = "setitem_slice" ->     \* self.data[slice] = row
             LET K == Range(SlicePos(p[1], n)) IN
+            IF n = 0 THEN Fail(objs, al, "MAYBE")      \* on an empty frame pandas fails or not, depending on the column dtypes
+            ELSE
             InPlace(objs, al, ev.recv, [o EXCEPT !.rows = [k \in 1..n |-> IF k \in K THEN LitRow(o.cols) ELSE o.rows[k]]], NoRet)
       [] m = "setitem_maskrows" ->  \* self.data[mask] = row
             InPlace(objs, al, ev.recv, [o EXCEPT !.rows = [k \in 1..n |-> IF Bit(p[1], k) THEN LitRow(o.cols) ELSE o.rows[k]]], NoRet)
@@ -360,7 +365,8 @@ Step(w, objs, al, ev) ==
             IN NewObj(objs, al, res, Ctor(o.cls, req, rows, o.index, o.meta))
       [] m = "filter" ->
             IF p[1] = 6 \/ (p[1] = 2 /\ ~HasCol(o.cols, "gene")) THEN Fail(objs, al, "AssertionError")    \* assert key in self
-            ELSE IF p[1] \in {3, 4} /\ n = 0
+            ELSE IF p[1] = 4 /\ n = 0 THEN Fail(objs, al, "KeyError")     \* ... and the keyword lookup then finds no column
+            ELSE IF p[1] = 3 /\ n = 0
                  THEN NewObj(objs, al, res, Ctor(o.cls, <<>>, <<>>, <<>>, o.meta))     \* apply() on an empty frame: columns lost
             ELSE NewObj(objs, al, res, SubObj(o, Where(n, LAMBDA k : FilterKeep(w, o, p, k))))
       [] m = "shuffle" ->
@@ -682,14 +688,15 @@ Holds(c, r) ==
 (* ---- premises ------------------------------------------------------------------------------------ *)
 (* ModelScope: what the A-layer is defined on (drift is evaluated there); Premise: what the documented    *)
 (* clauses quantify over.                                                                                 *)
-WellFormed(o) == /\ Unique(o.index)
+WellFormed(w, o) == /\ Unique(o.index)
                  /\ Unique(o.cols)
                  /\ \A q \in Idx(ReqCols(o.cls)) : HasCol(o.cols, ReqCols(o.cls)[q])
-                 /\ \A k \in Idx(o.rows) : Len(o.rows[k]) = Len(o.cols) /\ Cell(o, k, "chromosome") # 0
+                 /\ \A k \in Idx(o.rows) : /\ Len(o.rows[k]) = Len(o.cols)
+                                            /\ Abs(Cell(o, k, "chromosome")) \in Idx(Worlds[w].names)
                  /\ Len(o.index) = Len(o.rows)
 ModelScope(r) ==
     LET ev == r.ev IN
-    /\ \A nm \in DOMAIN r.pre : WellFormed(r.pre[nm])
+    /\ \A nm \in DOMAIN r.pre : WellFormed(r.w, r.pre[nm])
     /\ ev.recv # "" => ev.recv \in DOMAIN r.pre
     /\ ev.arg # "" => ev.arg \in DOMAIN r.pre
     /\ ev.res # "" => ev.res \notin DOMAIN r.pre
@@ -699,6 +706,9 @@ ModelScope(r) ==
                           \A q \in Idx(names) : SameColSet(r.pre[names[q]], r.pre[names[1]])
     /\ ev.m \in {"getitem_mask", "setitem_maskcell", "setitem_maskrows"} => ev.p[1] < Pow2(N(Recv(r)))
     /\ ev.m \in {"setitem_cell", "setitem_maskcell"} => HasCol(Recv(r).cols, ev.cs[1])
+    (* .loc[label, c] = v with a label that is not there enlarges the frame (a row of NaN, integer columns    *)
+    (* become float) or fails inside pandas, depending on the frame's block layout: not modelled              *)
+    /\ ev.m = "setitem_cell" => \E k \in Idx(Recv(r).index) : Recv(r).index[k] = ev.p[1]
     /\ ev.m \in {"log2_get", "log2_set", "drop_low_coverage", "residuals", "chr_x_label", "chr_y_label", "chr_x_filter",
                  "expect_flat"} => Recv(r).cls = "CNA"
     /\ ev.m = "residuals" => \A k \in Idx(Recv(r).rows) : Cell(Recv(r), k, "log2") % 2 = 0
@@ -714,7 +724,7 @@ Premise(r) ==
 Predict(r) == Step(r.w, r.pre, r.al, r.ev)
 DriftTags(r) ==
     LET s == Predict(r)  ev == r.ev IN
-    (IF s.err # ev.err /\ ~(s.err = "ANY" /\ ev.err # "") THEN {"err"} ELSE {})
+    (IF s.err # ev.err /\ ~(s.err = "ANY" /\ ev.err # "") /\ s.err # "MAYBE" THEN {"err"} ELSE {})
     \cup (IF ~s.dc /\ s.err = "" /\ ev.err = "" /\ s.ret # ev.ret THEN {"ret"} ELSE {})
     \cup (IF s.err = "" /\ ev.err = "" /\ s.alias # ev.alias THEN {"alias"} ELSE {})
     \cup (IF DOMAIN s.objs # DOMAIN r.post THEN {"names"} ELSE {})
@@ -731,7 +741,7 @@ DriftTags(r) ==
 KnownTriggers == {"GetitemIntegerSequence", "FilterFuncOnEmpty"}
 TriggerHolds(t, r) ==
     CASE t = "GetitemIntegerSequence" -> r.ev.m = "getitem_ints"
-      [] t = "FilterFuncOnEmpty" -> r.ev.m = "filter" /\ r.ev.p[1] \in {3, 4} /\ N(Recv(r)) = 0
-                                    /\ Range(Recv(r).cols) # Range(ReqCols(Recv(r).cls))
+      [] t = "FilterFuncOnEmpty" -> /\ r.ev.m = "filter" /\ r.ev.p[1] \in {3, 4} /\ N(Recv(r)) = 0
+                                    /\ (r.ev.p[1] = 4 \/ Range(Recv(r).cols) # Range(ReqCols(Recv(r).cls)))
       [] OTHER -> FALSE
 =============================================================================
